@@ -32,6 +32,12 @@
 //!    ever implement them) on ALL ordered pairs of the equality operands: a directed family of sparse sets
 //!    and their complements whose members sit at one offset of one to four words (every pair of words is
 //!    told apart by two one-member sets), plus every reached pattern of the closure (`equality_operands`).
+//! 5. operand PLACEMENT (`placed`): where a bitset lives is part of the case.  Everything above keeps every
+//!    bitset it creates at a 64-byte aligned address (`A64`), in the exploration and in a replay alike; this
+//!    part puts the operands of every binary / assigning operator, of `clone_from` and of `==` (and ONE operand
+//!    of every observer and point operation) at every combination of addresses modulo 64: neighbouring and
+//!    more distant elements of a `[Bitset<N>; 16]` (through `split_at_mut`), fields behind a `u64` pad in an
+//!    array of `#[repr(C)]` structs, elements of a `Vec`, two boxes.  A replay rebuilds the recorded layout.
 //!
 //! A call that does not return is a violation too: every call into the library runs inside an observed
 //! section (`stall`); a thread seen inside the same call of a section 40 times in a row, 250 ms apart, is reported
@@ -48,12 +54,14 @@
 //! Indices >= 64N are outside the property and are never passed.
 
 mod equality;
+mod placed;
 mod stall;
 
 use rayon::prelude::*;
 use rlib_bitset::Bitset;
 use serde::{Deserialize, Serialize};
 use equality::{eq_plain, equality_part, probes_work};
+use placed::{placed_part, placed_plain, Layout};
 use std::cell::Cell;
 use std::collections::{BTreeSet, HashSet, VecDeque};
 use std::sync::atomic::{AtomicBool, AtomicU64, Ordering};
@@ -99,6 +107,36 @@ fn not_a_capacity<T>(n: usize) -> T {
 
 fn is_large(n: usize) -> bool {
     n >= 64
+}
+
+/// A value at a 64-byte aligned address.  Every bitset the engine creates outside the placement family
+/// (`placed`) lives in one - states, operands, results of assigning operators, comparison partners -, in the
+/// exploration and in a replay alike: what a call does may depend on WHERE its operands are (code that works
+/// on wider lanes splits a word array by its address), and a case must meet the same placement when it is
+/// re-executed.  The placement family then moves the operands through every combination of addresses modulo 64.
+#[repr(C, align(64))]
+pub(crate) struct A64<T>(pub T);
+
+impl<T> std::ops::Deref for A64<T> {
+    type Target = T;
+    fn deref(&self) -> &T {
+        &self.0
+    }
+}
+
+impl<T> std::ops::DerefMut for A64<T> {
+    fn deref_mut(&mut self) -> &mut T {
+        &mut self.0
+    }
+}
+
+impl<T: Clone> Clone for A64<T> {
+    fn clone(&self) -> Self {
+        A64(self.0.clone())
+    }
+    fn clone_from(&mut self, source: &Self) {
+        self.0.clone_from(&source.0)
+    }
 }
 
 /// Operands of the binary operators in the dbg-profile pass (word-wise operators do no index arithmetic).
@@ -398,6 +436,8 @@ pub(crate) enum Pending {
     Equality { n: usize, pats: Arc<Vec<Vec<u64>>>, i: usize },
     /// a bitset of capacity m is used on the thread (the warm-up of a pass or of a replay)
     Touch { m: usize },
+    /// one layout of the placement family; detail = (8 bits: operator) + 256 (index of the ordered pair of patterns)
+    Placed { n: usize, layout: Layout, pats: Arc<Vec<Vec<u64>>> },
 }
 
 /// A call that does not return, as a finding.
@@ -473,6 +513,10 @@ impl Pending {
                 text: format!("{} {never}", phase_text(detail).1),
                 replay: json!({"kind": "touch", "n": m, "warmup": []}),
             },
+            Pending::Placed { n, layout, pats } => {
+                let (family, case, what, replay) = placed::stuck_case(*n, *layout, pats, detail);
+                Stuck { n: *n, family, case, text: format!("{what} {never}"), replay }
+            }
             Pending::Equality { n, pats, i } => {
                 let (wa, wb) = (&pats[*i], &pats[detail as usize % pats.len()]);
                 Stuck {
@@ -566,11 +610,11 @@ fn oracle<const N: usize>(b: &Bitset<N>, m: &[bool], probe: &[usize], with_debug
         ));
     }
     stall::detail(PH_EQ);
-    let mut other = Bitset::<N>::new();
+    let mut other = A64(Bitset::<N>::new());
     for &i in &members {
         other.set(i);
     }
-    if !(*b == other) || *b != other || !(other == *b) {
+    if !(*b == *other) || *b != *other || !(*other == *b) {
         return Err(("eq", "the bitset is not == to a bitset built from the same set by set()".into()));
     }
     for &p in probe {
@@ -579,7 +623,7 @@ fn oracle<const N: usize>(b: &Bitset<N>, m: &[bool], probe: &[usize], with_debug
         } else {
             other.set(p);
         }
-        if *b == other || !(*b != other) || other == *b {
+        if *b == *other || !(*b != *other) || *other == *b {
             return Err(("eq", format!("the bitset compares == to a bitset that differs from it exactly in bit {p}")));
         }
         if m[p] {
@@ -1085,7 +1129,7 @@ fn iter_protocol<const N: usize>(b: &Bitset<N>, m: &[bool], marks: &[usize]) -> 
 
 #[derive(Clone)]
 struct St<const N: usize> {
-    b: Bitset<N>,
+    b: A64<Bitset<N>>,
     m: Vec<bool>,
     /// Display rendering of `b` taken by the oracle right after the last transition (part of the state key)
     disp: String,
@@ -1144,12 +1188,12 @@ impl<const N: usize> System for Sys<N> {
         stall::section(
             || Pending::Init { n: N, act: a.clone() },
             || {
-                let b = match a {
+                let b = A64(match a {
                     Act::New => Bitset::<N>::new(),
                     Act::Default => <Bitset<N> as Default>::default(),
                     Act::FromU64(w) => Bitset::<N>::from_u64(*w),
                     _ => unreachable!(),
-                };
+                });
                 let disp = oracle(&b, &m, &self.probe, debug_every_transition(N)).map_err(|e| tag(kind_of(a), e))?;
                 Ok(St { b, m, disp })
             },
@@ -1210,34 +1254,34 @@ impl<const N: usize> Sys<N> {
             Act::Flip(p) => s.b.flip(p),
             Act::Clear => s.b.clear(),
             Act::Not => {
-                let x = s.b.clone();
-                s.b = !x;
+                let x = Bitset::clone(&s.b);
+                *s.b = !x;
             }
             Act::CloneReplace => {
-                let c = s.b.clone();
-                if !(c == s.b) || c != s.b {
+                let c = A64(Bitset::clone(&s.b));
+                if !(*c == *s.b) || *c != *s.b {
                     return Err("[clone.eq] a clone is not == to its original".into());
                 }
                 // x has not been touched since `disp` was taken
-                let d = format!("{}", c);
+                let d = format!("{}", *c);
                 if d != s.disp {
                     return Err(format!("[clone.display] {}", render_diff("the clone's Display", &d, &s.disp)));
                 }
                 s.b = c;
             }
             Act::CloneFromReplace(kind) => {
-                let mut t = match kind {
-                    0 => !s.b.clone(),
+                let mut t = A64(match kind {
+                    0 => !Bitset::clone(&s.b),
                     _ => Bitset::<N>::new(),
-                };
+                });
                 // the target has been observed (counted, rendered) before it is overwritten
                 let held = t.count();
-                let _ = format!("{}", t);
-                t.clone_from(&s.b);
-                if !(t == s.b) || t != s.b {
+                let _ = format!("{}", *t);
+                Bitset::clone_from(&mut t, &s.b);
+                if !(*t == *s.b) || *t != *s.b {
                     return Err(format!("[clone_from.eq] after target.clone_from(&x) the target (it held {held} members) is not == to x"));
                 }
-                let d = format!("{}", t);
+                let d = format!("{}", *t);
                 if d != s.disp {
                     return Err(format!("[clone_from.display] {}", render_diff("Display of the target of clone_from", &d, &s.disp)));
                 }
@@ -1305,29 +1349,31 @@ fn expected_op<const N: usize>(op: usize, wa: &[u64], wb: &[u64]) -> [u64; N] {
 }
 
 /// One operator on one ordered pair.  Ok = membership words of the result.
+/// The operands are 64-byte aligned (`A64`) wherever this is called from, and so are the result and the
+/// target of an assigning operator here.
 fn pair_case<const N: usize>(op: usize, a: &Bitset<N>, wa: &[u64], b: &Bitset<N>, wb: &[u64]) -> Result<[u64; N], String> {
     let exp: [u64; N] = expected_op::<N>(op, wa, wb);
-    let res: Bitset<N> = match op {
-        0 => a & b,
-        1 => a | b,
-        2 => a ^ b,
+    let res: A64<Bitset<N>> = match op {
+        0 => A64(a & b),
+        1 => A64(a | b),
+        2 => A64(a ^ b),
         3 => {
-            let mut c = a.clone();
-            c &= b;
+            let mut c = A64(a.clone());
+            *c &= b;
             c
         }
         4 => {
-            let mut c = a.clone();
-            c |= b;
+            let mut c = A64(a.clone());
+            *c |= b;
             c
         }
         _ => {
-            let mut c = a.clone();
-            c ^= b;
+            let mut c = A64(a.clone());
+            *c ^= b;
             c
         }
     };
-    let got = read_words(&res);
+    let got = read_words(&*res);
     if got != exp {
         return Err(format!("{} of {} and {} gave the set {}, the set operation gives {}", OPS[op], hex(wa), hex(wb), hex(&got), hex(&exp)));
     }
@@ -1373,7 +1419,7 @@ fn pair_plain<const N: usize>(op: usize, wa: &[u64], wb: &[u64]) -> Result<(), S
         || {
             stall::detail((8 + op) as u64);
             catch(|| {
-                let (a, b) = (build::<N>(wa), build::<N>(wb));
+                let (a, b) = (A64(build::<N>(wa)), A64(build::<N>(wb)));
                 if wa == wb {
                     pair_case::<N>(op, &a, wa, &a, wa)
                 } else {
@@ -1416,7 +1462,7 @@ fn pairs<const N: usize>(pats: &[Vec<u64>]) -> Result<PairReport, (usize, String
     let row = |i: usize| {
         let mut out = RowOut { evals: 0, overlapping: 0, fails: vec![None; 6], results: HashSet::new() };
         // operands are rebuilt per row: a Bitset need not be Sync (it may hold interior caches)
-        let bs: Vec<Bitset<N>> = pats.iter().map(|w| build::<N>(w)).collect();
+        let bs: Vec<A64<Bitset<N>>> = pats.iter().map(|w| A64(build::<N>(w))).collect();
         for j in 0..k {
             PROGRESS.fetch_add(1, Ordering::Relaxed);
             let (wa, wb) = (&pats[i], &pats[j]);
@@ -1499,6 +1545,8 @@ struct Totals {
     pairs: u64,
     eq_pairs: u64,
     eq_evals: u64,
+    placed_layouts: u64,
+    placed_evals: u64,
     all_closed: bool,
 }
 
@@ -1519,6 +1567,8 @@ struct Plan {
     pair_cap: usize,
     /// the equality pairs (directed operands, and the reached patterns where the closure part ran)
     equality: bool,
+    /// the placement family
+    placed: bool,
     wall_cap: f64,
 }
 
@@ -1750,6 +1800,11 @@ fn run_n<const N: usize>(run: &mut Run, fams: &mut Fams, tot: &mut Totals, plan:
             equality_part::<N>(&mut cx, &mut ev, &pats_m);
             timed("equality_pairs", t);
         }
+        let t = std::time::Instant::now();
+        if plan.placed {
+            placed_part::<N>(&mut cx, &mut ev);
+            timed("operand_placement", t);
+        }
         ev.insert("part_wall_s".into(), Value::Object(parts));
     });
     let proto = protocol_evidence(&before);
@@ -1807,7 +1862,7 @@ fn confirm_state<const N: usize>(v: &Value) -> Result<(), String> {
     let words = words_of::<N>(&v["words"]);
     let then: Option<Act> = serde_json::from_value(v["then"].clone()).unwrap_or_else(|_| bad_replay());
     let sys = Sys::<N>::replay();
-    let b = build_checked::<N>(&words)?;
+    let b = A64(build_checked::<N>(&words)?);
     let m: Vec<bool> = (0..64 * N).map(|i| (words[i / 64] >> (i % 64)) & 1 == 1).collect();
     let observed = stall::section(|| Pending::State { n: N, words: words.clone(), then: None }, || catch(|| oracle(&b, &m, &sys.probe, true)));
     let disp = match observed {
@@ -1834,6 +1889,9 @@ fn confirm_n<const N: usize>(v: &Value) -> Result<(), String> {
     }
     if v["kind"] == "eq" {
         return eq_plain::<N>(&words_of::<N>(&v["a"]), &words_of::<N>(&v["b"]));
+    }
+    if v["kind"] == "placed" {
+        return placed_plain::<N>(v);
     }
     if v["kind"] == "touch" {
         // nothing is judged but that the calls return
@@ -1978,6 +2036,7 @@ fn main() {
         pairs: closure,
         pair_cap: if dbg_pass { pair_cap(n).min(DBG_PAIR_CAP) } else { pair_cap(n) },
         equality: true,
+        placed: true,
         wall_cap,
     };
     run_cap(1, &mut run, &mut fams, &mut tot, main_pass(1, true, args.tier.pick(2, 3)));
@@ -1995,7 +2054,7 @@ fn main() {
     const PREFIX: usize = 2;
     for n in CAPS {
         let bound = if thorough { None } else { Some(PREFIX) };
-        run_cap(n, &mut run, &mut fams, &mut tot, Plan { order: Order::Descending, thorough, closure: Some(bound), sweep_depth: 0, pairs: false, pair_cap: 0, equality: false, wall_cap });
+        run_cap(n, &mut run, &mut fams, &mut tot, Plan { order: Order::Descending, thorough, closure: Some(bound), sweep_depth: 0, pairs: false, pair_cap: 0, equality: false, placed: false, wall_cap });
     }
 
     // one protocol case written out: {0, 63, 64, 191} of Bitset<3>, one item taken, then nth across the words
@@ -2039,6 +2098,8 @@ fn main() {
     run.cov("binary_operator_evaluations", tot.pair_evals);
     run.cov("equality_ordered_pairs", tot.eq_pairs);
     run.cov("equality_evaluations", tot.eq_evals);
+    run.cov("operand_placement_layouts", tot.placed_layouts);
+    run.cov("operand_placement_evaluations", tot.placed_evals);
     let (sections, longest) = stall::statistics();
     run.cov(
         "calls_that_must_return",
@@ -2082,7 +2143,15 @@ fn main() {
          sets and partial_cmp) on ALL ordered pairs (i = j: two objects built separately) of the equality operands: for every offset o in {0,1,31,62,63} the sets {64w+o : w in W} \
          for W empty, W = {w} for every word w, and every W of two, three or four marked words (0,1,2,N/2,N-2,N-1,63,64,65 below N), the complements of all these, and every \
          reached pattern of the closure (all of them; a cap of 20000 is reported if it applies); judged against equality of the patterns; self-check: pairs differing in one bit, \
-         in the same offset of exactly two words for EVERY pair of words, of three and of four words exist. The full-alphabet sweep (every index 0..64N) is depth-bounded and reported \
+         in the same offset of exactly two words for EVERY pair of words, of three and of four words exist. Operand placement: in all the parts above every bitset the engine creates \
+         (states, operands, targets of assigning operators, comparison partners) lives at a 64-byte aligned address, in the exploration and in the re-execution; the placement family then \
+         puts the operands a, b at every combination of addresses modulo 64: elements (i, i+d) and (i+d, i), i < 8, of a [Bitset<N>; 16] (taken through split_at_mut) and the fields b of the \
+         same elements of a [#[repr(C)] struct {pad: u64, b: Bitset<N>}; 16], both arrays starting at a 64-byte boundary, d = 1..8 in the array whose element size is an odd number of words \
+         (there the 128 layouts reach all 8 x 8 combinations, checked) and d = 1, 2 in the other; then elements (0,1), (1,0), (0,2), (2,0) of a Vec<Bitset<N>> of three and two Box<Bitset<N>> \
+         (placed by the allocator; addresses modulo 16 recorded and demanded again by the replay). In every layout, for all ordered pairs of the placement patterns (empty, full, two patterns \
+         whose words all differ, for N <= 10 also first word only, last word only, stripes), operands written in place: & | ^ on references, &= |= ^=, a.clone_from(&b), == / != (both orders), \
+         result and both operands read back through test(i) for every i; in the layouts (i, i+1) also on ONE placed operand: every observer of the oracle, clone(), and flip, flip, set, remove at every \
+         position of the alphabet, then clear; after a layout every other element of the container must still hold the pattern it was given (and the pads their numbers). The full-alphabet sweep (every index 0..64N) is depth-bounded and reported \
          separately. Interference between capacities: every pass runs in a thread pool of its own whose threads first use a bitset of every OTHER capacity \
          (ascending in the main pass; descending in a second pass that repeats the closure - in quick its prefix of depth 2); a violation is re-executed on a \
          fresh thread that performs the recorded warm-up and then the recorded case. Calls that do not return: every call into the library (constructors, transitions, \
@@ -2097,6 +2166,7 @@ fn main() {
     run.assume("the iterator protocol is judged once per distinct state (model bits + Display rendering), not after every transition: iter_bits() borrows the bitset immutably, so what it yields can depend on the history only through the state; the adaptors themselves (skip, step_by, take, ...) are std's and are trusted, what is judged are the Iterator methods of the iterator that they call");
     run.assume("a call into the library that never returns cannot be decided without a clock, except where the engine's own closure is being called (there it is ended after 4(64N+2) calls): a thread observed inside the same call 40 times in a row, 250 ms apart, is taken to be in a call that does not terminate (the longest whole section of this run - up to thousands of judged calls - is reported under calls_that_must_return: the margin is the evidence that a slow machine is not mistaken for a hang; observations are counted, not timed, so a stopped process does not age); the choice among several calls stuck at the same time is the smallest (capacity, family, case), not the first in enumeration order. Only a stall outside every section for 120 s still ends in exit 2 without a verdict");
     run.assume("Hash and PartialOrd are not implemented by Bitset at the pinned revision; the equality pairs probe for them at compile time and judge them (equal sets hash alike; partial_cmp is Equal exactly for equal sets and antisymmetric) only if they exist — no order between different sets is demanded");
+    run.assume("placement: outside the placement family every bitset the engine creates is 64-byte aligned, so the closure, the sweep, the operator pairs and the equality pairs see one address class; the placement family covers the operand addresses modulo 64 (all 64 combinations for two operands, all 8 classes for one) with the stated patterns, not with every reached pattern; values returned by value (a & b, !x, clone()) are created in the callee's frame, whose placement the engine does not own; addresses modulo more than 64 (pages) are not varied");
     run.assume("the dbg-profile pass judges the same plan with a smaller operand cap for the binary operators; it reports through the parent (signature prefix dbg:) and its replays run in the dbg build");
     run.finish(&confirm)
 }
